@@ -1,4 +1,4 @@
-import J5V.Codec.RoundtripProofs
+import J5V.Codec.RoundtripInd
 import J5V.Codec.DecodeProofs
 import J5V.Json.ReaderProofs
 import J5V.Json.Strict
@@ -463,8 +463,8 @@ theorem fieldSimple_noAny (fld : Field) (h : fieldSimple fld = true) : fieldNoAn
   | any pb => simp [fieldSimple] at h
   | _ => rfl
 
-theorem simple_noAny (env : Env) (h : env.simple = true) : env.noAny = true := by
-  unfold Env.simple at h
+theorem flat_noAny (env : Env) (h : env.flat = true) : env.noAny = true := by
+  unfold Env.flat at h
   simp only [Bool.and_eq_true] at h
   unfold Env.noAny
   apply List.all_eq_true.mpr
@@ -473,22 +473,19 @@ theorem simple_noAny (env : Env) (h : env.simple = true) : env.noAny = true := b
   cases hroot : d.2 with
   | object ps =>
     rw [hroot] at hr
-    simp only [rootSimple, Bool.and_eq_true] at hr
     simp only []
     apply List.all_eq_true.mpr
     intro p hp
-    have := List.all_eq_true.mp hr.1.1 p hp
-    simp only [Bool.and_eq_true, propSimple] at this
-    exact fieldSimple_noAny _ this.1.2
+    rcases (object_root_facts env ps hr).1 p hp with h1 | h1
+    · exact fieldSimple_noAny _ (propFlat_inv p h1).2
+    · obtain ⟨_, _, ref, ops, hpf, _⟩ := propExposed_inv env p h1
+      rw [hpf]; rfl
   | oneof ps =>
     rw [hroot] at hr
-    simp only [rootSimple, Bool.and_eq_true] at hr
     simp only []
     apply List.all_eq_true.mpr
     intro p hp
-    have := List.all_eq_true.mp hr.1.1.1 p hp
-    simp only [Bool.and_eq_true, propSimple] at this
-    exact fieldSimple_noAny _ this.2
+    exact fieldSimple_noAny _ (propSimple_field p ((oneof_root_facts ps hr).1 p hp))
   | «enum» a b => rfl
   | noschema => rfl
 
@@ -505,16 +502,17 @@ theorem encodeBytes_parses (env : Env) (O : Oracle) (hna : env.noAny = true) (hO
     simp only [ht] at h; cases h
     exact ⟨t, rfl, rfl, parse_render t (encodeTree_enc env O hna hO root v t ht)⟩
 
-/-- **byte-level round trip** -/
-theorem roundtrip_bytes (c : Cfg) (hs : c.env.simple = true) (L : OracleLaws c.O) (root : String)
-    (m : Fields) (bs : Bytes)
-    (hok : valOk c.env c.O (.object root) (.msg m) = true ∨ valOk c.env c.O (.oneof root) (.msg m) = true)
-    (henc : encodeBytes c.env c.O root (.msg m) = .ok bs) : decodeBytes c root bs = .ok m := by
-  obtain ⟨t, ht, rfl, _⟩ := encodeBytes_parses c.env c.O (simple_noAny c.env hs)
-    (floatTextOk_of_laws c.O L) root (.msg m) bs henc
+/-- **byte-level round trip with progress**: `Codec.ProtoToJSON` succeeds on every representable
+message of a flat environment and `Codec.JSONToProto` maps the bytes back to exactly that message -/
+theorem roundtrip_bytes (c : Cfg) (hs : c.env.flat = true) (L : OracleLaws c.O) (root : String)
+    (m : Fields)
+    (hok : valOk c.env c.O (.object root) (.msg m) = true ∨ valOk c.env c.O (.oneof root) (.msg m) = true) :
+    ∃ bs, encodeBytes c.env c.O root (.msg m) = .ok bs ∧ decodeBytes c root bs = .ok m := by
+  obtain ⟨t, ht, hdec⟩ := roundtrip_tree_flat c hs L root m hok
+  refine ⟨t.render, by simp [encodeBytes, ht], ?_⟩
   unfold decodeBytes
-  rw [readDoc_render t (encodeTree_enc c.env c.O (simple_noAny c.env hs) (floatTextOk_of_laws c.O L)
+  rw [readDoc_render t (encodeTree_enc c.env c.O (flat_noAny c.env hs) (floatTextOk_of_laws c.O L)
     root (.msg m) t ht)]
-  exact roundtrip_tree c hs L root m t hok ht
+  exact hdec
 
 end J5V.Codec
